@@ -1,0 +1,13 @@
+//go:build !verif
+
+// Package vhook provides named instrumentation points for the out-of-tree runtime-verification
+// harness. Without the "verif" build tag every function here is an empty, inlined no-op.
+package vhook
+
+import "time"
+
+// At marks a named instrumentation point. No-op without the verif build tag.
+func At(string) {}
+
+// AtDur marks a named instrumentation point carrying a duration. No-op without the verif build tag.
+func AtDur(string, time.Duration) {}
